@@ -75,9 +75,34 @@ def strip_coq_comments(src):
     return "".join(out)
 
 
-def forbidden_scan():
+def scan_dirs(cd):
+    """directories of the development a property depends on: its own, Lib, and every sibling directory named in a Require"""
+    dirs = {cd.split("/")[0], "Lib"}
+    todo = list(dirs)
+    while todo:
+        d = todo.pop()
+        for path in glob.glob(os.path.join(COQ, d, "**", "*.v"), recursive=True):
+            try:
+                src = open(path, encoding="utf8", errors="replace").read()
+            except OSError:
+                continue
+            for line in re.findall(r"^\s*(?:From\s+\S+\s+)?Require[^.]*(?:\.[^.\s][^.]*)*\.", src, re.M):
+                for m in re.findall(r"\b([A-Z]\w*)\.\w+", line):
+                    if m not in dirs and os.path.isdir(os.path.join(COQ, m)):
+                        dirs.add(m)
+                        todo.append(m)
+    return sorted(dirs)
+
+
+def forbidden_scan(cd=None):
     bad = []
-    for path in glob.glob(os.path.join(COQ, "**", "*.v"), recursive=True):
+    if cd is None or os.environ.get("VERIF_SCAN_ALL") == "1":
+        paths = glob.glob(os.path.join(COQ, "**", "*.v"), recursive=True)
+    else:
+        paths = []
+        for d in scan_dirs(cd):
+            paths += glob.glob(os.path.join(COQ, d, "**", "*.v"), recursive=True)
+    for path in paths:
         src = strip_coq_comments(open(path, encoding="utf8", errors="replace").read())
         # strings may contain words; remove string literals
         src = re.sub(r'"[^"]*"', '""', src)
@@ -253,7 +278,7 @@ def main():
         print("[%s %s] %s" % (pid, tier, s), flush=True)
 
     # ---- 0. forbidden constructs (fail closed: this is a defect of the development, not of the code)
-    bad = forbidden_scan()
+    bad = forbidden_scan(cd)
     if bad:
         print("INTERNAL: forbidden constructs in the Coq development:\n  " + "\n  ".join(bad))
         sys.exit(2)
